@@ -1511,19 +1511,23 @@ def m_stack(it, tensors, dim=0):
     ts = [as_tensor(it, t) for t in ops.native_iter(it, tensors)]
     if not ts:
         ops.raise_(RuntimeError, "stack expects a non-empty TensorList")
-    if dim != 0:
-        raise OutOfSubset("stack along dim != 0")
     n = len(ts)
     sh = ts[0].shape_
+    if not isinstance(dim, int):
+        raise OutOfSubset("stack along a symbolic dimension")
+    pos = dim if dim >= 0 else dim + len(sh) + 1
+    if not (0 <= pos <= len(sh)):
+        ops.raise_(IndexError, "Dimension out of range in stack")
     anyreal = any(t.dtype == "real" for t in ts)
 
     def fn(idx):
-        e = ts[-1].elem_real(idx[1:]) if anyreal else ts[-1].fn(idx[1:])
+        sub = tuple(idx[:pos]) + tuple(idx[pos + 1:])
+        e = ts[-1].elem_real(sub) if anyreal else ts[-1].fn(sub)
         for k in range(n - 2, -1, -1):
-            ek = ts[k].elem_real(idx[1:]) if anyreal else ts[k].fn(idx[1:])
-            e = z3.If(idx[0] == k, ek, e)
+            ek = ts[k].elem_real(sub) if anyreal else ts[k].fn(sub)
+            e = z3.If(idx[pos] == k, ek, e)
         return e
-    return STensor((n,) + sh, fn, "real" if anyreal else ts[0].dtype)
+    return STensor(tuple(sh[:pos]) + (n,) + tuple(sh[pos:]), fn, "real" if anyreal else ts[0].dtype)
 
 
 @model(torch.cat, torch.concat)
